@@ -112,6 +112,9 @@ pub enum Dgram {
     /// sorted, NONC of standard length added), padded with zeros to `len` bytes, then header words overwritten.
     /// `words`: (header word index, value) where the value is absolute or relative to a buffer-size boundary
     Crafted { ietf: bool, fields: Vec<(u8, u8)>, len: u32, words: Vec<(u8, WordVal)> },
+    /// a count word followed by small aligned words (a header that promises more offsets/tags than the datagram holds,
+    /// with every word a plausible offset), padded with `fill_word` to `len` bytes; optionally RFC-framed
+    Header { ietf: bool, count: u32, words: Vec<u32>, fill_word: u32, len: u32 },
     /// `prefix` followed by `fill` up to `len` bytes
     Junk { prefix: Hex, len: u32, fill: u8 },
     Empty,
@@ -284,6 +287,23 @@ impl Dgram {
                 }
                 b
             }
+            Dgram::Header { ietf, count, words, fill_word, len } => {
+                let total = ((*len as usize).min(65_507) / 4) * 4;
+                let mut payload: Vec<u8> = count.to_le_bytes().to_vec();
+                for w in words {
+                    payload.extend_from_slice(&w.to_le_bytes());
+                }
+                let body = total.saturating_sub(if *ietf { 12 } else { 0 });
+                while payload.len() < body {
+                    payload.extend_from_slice(&fill_word.to_le_bytes());
+                }
+                payload.truncate(body.max(4));
+                if *ietf {
+                    rc::frame(&payload)
+                } else {
+                    payload
+                }
+            }
             Dgram::Junk { prefix, len, fill } => {
                 let mut b = prefix.0.clone();
                 b.resize((*len as usize).min(65_507), *fill);
@@ -318,6 +338,7 @@ impl Dgram {
                 FieldMut::Word(..) | FieldMut::Bit(..) | FieldMut::Count(_) => "field-bits",
             },
             Dgram::Crafted { .. } => "crafted",
+            Dgram::Header { .. } => "header-count",
             Dgram::Junk { .. } => "junk",
             Dgram::Empty => "empty",
         }
@@ -374,9 +395,17 @@ fn crafted() -> impl Strategy<Value = Dgram> {
         .prop_map(|(ietf, fields, len, words)| Dgram::Crafted { ietf, fields, len, words })
 }
 
+fn header_count() -> impl Strategy<Value = Dgram> {
+    let count = prop_oneof![3 => prop::sample::select(vec![0u32, 1, 2, 3, 17, 18, 19, 20, 64, 127, 128, 129, 255, 256, 257, 300, 512, 1000, 1023, 1024, 1025, 4096, 1 << 30, u32::MAX]), 1 => 2u32..=1100];
+    let small = prop_oneof![3 => Just(0u32), 2 => (0u32..=64).prop_map(|w| w * 4), 1 => (0u32..=400).prop_map(|w| w * 4)];
+    (any::<bool>(), count, proptest::collection::vec(small.clone(), 0..=24), small, prop_oneof![3 => Just(1024u32), 1 => Just(1500u32), 1 => (256u32..=375).prop_map(|w| w * 4)])
+        .prop_map(|(ietf, count, words, fill_word, len)| Dgram::Header { ietf, count, words, fill_word, len })
+}
+
 /// any datagram family (valid and invalid)
 pub fn any_dgram() -> impl Strategy<Value = Dgram> {
     prop_oneof![
+        3 => header_count(),
         4 => crafted(),
         6 => std_req().prop_map(Dgram::Std),
         3 => sized_req().prop_map(Dgram::Std),
